@@ -8,6 +8,7 @@ CONSTANTS
   MaxStack = 3
   ResetKeepsMarkers = FALSE
   IterMayNotPush = TRUE
+  PopStackByCount = TRUE
   MoveCmds = {"Move"}
   ReadCmds = {"Read", "Toggle"}
 VIEW View
